@@ -202,3 +202,5 @@ func (n *netEnv) drain() []sentMsg {
 		}
 	}
 }
+
+func decodeInto(body []byte, o tl.Object) error { return tl.Decode(body, o) }
